@@ -556,3 +556,32 @@ Ltac perm_solve :=
           end
       end ];
   try lia.
+
+(* the same for lists of request identifiers *)
+Lemma count_occ_cons_split_z (a : Z) l x :
+  count_occ Z.eq_dec (a :: l) x = count_occ Z.eq_dec [a] x + count_occ Z.eq_dec l x.
+Proof. simpl. destruct (Z.eq_dec a x); lia. Qed.
+
+Ltac perm_solve_z :=
+  apply (proj2 (Permutation_count_occ Z.eq_dec _ _));
+  let x := fresh "x" in intro x;
+  repeat match goal with
+         | H : Permutation ?a ?b |- _ =>
+             let H' := fresh in
+             pose proof (proj1 (Permutation_count_occ Z.eq_dec a b) H x) as H'; clear H
+         end;
+  repeat first
+    [ rewrite count_occ_app in *
+    | match goal with
+      | |- context [count_occ Z.eq_dec (?a :: ?l) x] =>
+          lazymatch l with
+          | [] => fail
+          | _ => rewrite (count_occ_cons_split_z a l x)
+          end
+      | H : context [count_occ Z.eq_dec (?a :: ?l) x] |- _ =>
+          lazymatch l with
+          | [] => fail
+          | _ => rewrite (count_occ_cons_split_z a l x) in H
+          end
+      end ];
+  try lia.
